@@ -7,6 +7,7 @@ Core only (no Mathlib).  `loop_aux` is the induction over the token list; invari
 specification is in (`e`) is the model's `tag`, or neither side can regard an attribute as defaultable.
 -/
 set_option linter.unnecessarySimpa false
+set_option linter.unusedSimpArgs false
 namespace Verif.Proofs.SvgDoc
 open Verif.SvgDoc Verif.Model.SvgDoc Verif.Spec.SvgDocSpec
 open Verif.Model.Xml (escapeAttrVal escapeCDATAVal)
@@ -278,6 +279,84 @@ theorem collapseSkip_cases (r : List STok) :
     · exact Or.inr (Or.inr ⟨_, _, _, _, rfl, rfl⟩)
     · exact Or.inl rfl
   · exact Or.inl rfl
+
+/-! ## the `]]>` guard does not touch element and attribute events -/
+
+def isCharTok : STok → Bool
+  | .text _ => true
+  | .cdata _ _ => true
+  | _ => false
+
+theorem evsOut_charTok (m : Bool) (t : STok) (r : List STok) (h : isCharTok t = true) :
+    evsOut m (t :: r) = evsOut m r := by
+  cases t <;> simp [isCharTok] at h <;> cases m <;> simp [evsOut]
+
+theorem cdataOut_char (d t : List Char) : isCharTok (cdataOut d t) = true := by
+  unfold cdataOut; split <;> rfl
+
+theorem cdataOutAt_char (br : Nat) (d t : List Char) : isCharTok (cdataOutAt br d t) = true := by
+  unfold cdataOutAt; split <;> rfl
+
+/-- a hole closed with the guard is the token of the shape-only `fill`, or both are character data -/
+theorem fillAt_fill (e : Env) (br : Nat) (p : PTok) :
+    (fillAt e br p).1 = fill e p ∨ (isCharTok (fillAt e br p).1 = true ∧ isCharTok (fill e p) = true) := by
+  cases p with
+  | tok t => exact Or.inl rfl
+  | textTok d => exact Or.inr ⟨rfl, rfl⟩
+  | cdataTok d tx => exact Or.inr ⟨cdataOutAt_char _ _ _, cdataOut_char _ _⟩
+  | styleText m pl => exact Or.inr ⟨rfl, rfl⟩
+  | styleCData m d tx =>
+    right
+    simp only [fillAt, fill]
+    split <;> exact ⟨cdataOutAt_char _ _ _, cdataOut_char _ _⟩
+  | styleAttr n m pl => exact Or.inl rfl
+  | pathAttr n pl => exact Or.inl rfl
+
+theorem evsOut_fillGo (e : Env) : ∀ (ps : List PTok) (br : Nat) (m : Bool),
+    evsOut m ((fillGo e br ps).map (·.1)) = evsOut m (ps.map (fill e)) := by
+  intro ps
+  induction ps with
+  | nil => intro br m; rfl
+  | cons p r ih =>
+    intro br m
+    simp only [fillGo, List.map_cons]
+    rcases fillAt_fill e br p with h | ⟨h1, h2⟩
+    · rw [h]
+      have := ih (brAfter br (fill e p).render)
+      cases hp : fill e p <;> cases m <;> simp only [evsOut] <;> (try rw [h] at *) <;> simp [hp, this, ih]
+    · rw [evsOut_charTok _ _ _ h1, evsOut_charTok _ _ _ h2]
+      exact ih _ m
+
+/-- the element / attribute / PI events of the output are those of the shape-only filling of the plan -/
+theorem evsOut_emit (e : Env) (o : SvgOpts) (ts : List STok) :
+    evsOut false (emit e o ts) = evsOut false ((plan e.num o st0 0 ts).map (fill e)) :=
+  evsOut_fillGo e _ 0 false
+
+/-! ## the bracket count is the number of `]` at the end of the bytes written -/
+
+def bytesOf (l : List (STok × Option Req)) : List Char := (l.map (·.1)).flatMap STok.render
+
+theorem brAfter_append (a b : List Char) : ∀ n, brAfter n (a ++ b) = brAfter (brAfter n a) b := by
+  induction a with
+  | nil => intro n; rfl
+  | cons c r ih =>
+    intro n
+    simp only [brAfter, Verif.Model.Xml.brAfter, List.cons_append]
+    split
+    · exact ih _
+    · exact ih _
+
+/-- `fillGo` over a concatenation: the second part starts with the bracket count of the bytes of the first -/
+theorem fillGo_append (e : Env) : ∀ (a b : List PTok) (br : Nat),
+    fillGo e br (a ++ b) = fillGo e br a ++ fillGo e (brAfter br (bytesOf (fillGo e br a))) b := by
+  intro a
+  induction a with
+  | nil => intro b br; simp [fillGo, bytesOf, brAfter, Verif.Model.Xml.brAfter]
+  | cons p r ih =>
+    intro b br
+    simp only [List.cons_append, fillGo, bytesOf, List.map_cons, List.flatMap_cons]
+    rw [ih, brAfter_append]
+    rfl
 
 /-! ## the loop -/
 
